@@ -186,6 +186,13 @@ class Ctx:
             raise Infra("design check %s/%s failed: %s\n%s" % (module, cfg, r.violated, tail))
         return r
 
+    def design_check_many(self, jobs, workers_each=4, parallel=3, timeout=3000):
+        """Several exhaustive design checks side by side: jobs = [(module, cfg), ...].  Each must pass."""
+        from concurrent.futures import ThreadPoolExecutor
+        with ThreadPoolExecutor(parallel) as ex:
+            futs = [ex.submit(self.design_check, m, c, workers=workers_each, timeout=timeout) for m, c in jobs]
+            return [f.result() for f in futs]
+
     # -- harness ------------------------------------------------------------
     def build_harness(self, family, tags="verif"):
         """Builds harness/cmd/<family> from the repository's current working tree."""
